@@ -78,6 +78,22 @@ func matrixCells() []cell {
 			cells = append(cells, cell{yc.n, "yaml", st, nil, yc.doc, "", strings.ReplaceAll(yc.doc, "\n", "\\n")})
 		}
 	}
+	// the offence sits behind more than a mebibyte of valid instances (a comment straddles the 2^20 mark)
+	big := strings.Repeat(validYAML, (1<<20)/len(validYAML)-2) + "# " + strings.Repeat("c", 3*len(validYAML)) + "\n"
+	for _, st := range writeStages {
+		cells = append(cells, cell{"tempo 0", "yaml", st, nil, big + "- values: [\"1\"]\n  bpm: 0\n", "", "1 MiB of instances, then bpm: 0"})
+		cells = append(cells, cell{"unknown chord symbol", "yaml", st, nil, big + "- chord: {degree: \"1\", name: \"zork\"}\n  values: [\"1\"]\n", "", "1 MiB of instances, then zork"})
+	}
+	// a piece without any chord: nonsense is nonsense even when no chord needs it
+	restsOnly := "- values: [\"1\"]\n- values: [\"2\"]\n  bpm: 90\n"
+	for _, m := range []string{"zzz", "cmt,zzz"} {
+		cells = append(cells, cell{"unknown modifier", "flag", "write conv", []string{"-c", m}, restsOnly, "", "rests only, -c " + m})
+	}
+	for _, st := range writeStages {
+		cells = append(cells, cell{"unknown dynamic", "flag", st, []string{"--velocity", "zz"}, restsOnly, "", "rests only, --velocity zz"})
+		cells = append(cells, cell{"key without scale", "flag", st, []string{"--key", "E#"}, restsOnly, "", "rests only, --key E#"})
+		cells = append(cells, cell{"tempo 0", "yaml", st, nil, restsOnly + "- values: [\"1\"]\n  bpm: 0\n", "", "rests only, bpm: 0"})
+	}
 	for _, st := range writeStages { // an empty entry is not an instance (regression of a repaired defect, every write command)
 		for _, d := range []string{"- \n- values: [1]\n", validYAML + "- ~\n", "-\n"} {
 			cells = append(cells, cell{"no durations", "yaml", st, nil, d, "", fmt.Sprintf("%q", d)})
